@@ -466,6 +466,19 @@ def trace_records(rng, n_terms, start_id=0):
                 ops.append({"op": "subst", "t": T.to_json(T.project_pool(wrapped)), "m": T.map_to_json([(T.leaf(kname), T.val("5"))]), "r": T.to_json(T.project_pool(res))})
                 if rule != {ksym: sp.Integer(5)}:   # the rule object was modified: the next use of it would substitute something else
                     ops.append({"op": "subst", "t": T.to_json(T.project_pool(ksym)), "m": T.map_to_json([(T.leaf(kname), T.val("5"))]), "r": T.to_json(T.project_pool(ksym.xreplace(rule)))})
+        # the caller's symbol is EQUAL to the summation index but not the same object (SymPy hands out a new object for a name once
+        # the old one has left its symbol cache): bound is bound
+        if bound:
+            from sympy.core.cache import clear_cache
+
+            kname = sorted(bound)[rng.randrange(len(bound))]
+            old_obj = T.concretise_pool(T.leaf(kname))
+            clear_cache()
+            fresh = sp.Symbol(kname, **{k_: v_ for k_, v_ in old_obj.assumptions0.items() if k_ in getattr(old_obj, "_assumptions_orig", {})})
+            if fresh == old_obj and fresh is not old_obj:
+                ops.append({"op": "subst", "t": T.to_json(t), "m": T.map_to_json([(T.leaf(kname), T.val("5"))]), "r": T.to_json(T.project_pool(real.subs(fresh, sp.Integer(5))))})
+                ops.append({"op": "subst", "t": T.to_json(t), "m": T.map_to_json([(T.leaf(kname), T.val("5"))]), "r": T.to_json(T.project_pool(real.xreplace({fresh: sp.Integer(5)})))})
+                ops.append({"op": "doit", "t": T.to_json(t), "r": T.to_json(T.project_pool(real.doit()))})
         # equality with a rebuilt copy and with a neighbour
         other = T.concretise_pool(t)
         ops.append({"op": "eq", "t": T.to_json(t), "u": T.to_json(T.project_pool(other)), "eq": int(real == other), "hash": int(hash(real) == hash(other))})
